@@ -929,6 +929,8 @@ def probe_eval(d):
         return _contract(d)
     if kind == 'alias-pool':
         return _alias_pool_eval(d)
+    if kind == 'callback':
+        return _callback_eval(d)
     if kind == 'admm-vs-simple':
         L = _pop(d['op'])
         f, g = _pf(d['f'], L.domain), _pf(d['g'], L.range)
@@ -1239,9 +1241,12 @@ def _need(v):
     return v
 
 
-def _np_contract(d):
-    """callback-observed iterates of the DOCUMENTED iteration of d['solver'] in plain NumPy, or None"""
+def _np_contract(d, inner=False):
+    """callback-observed iterates of the DOCUMENTED iteration of d['solver'] in plain NumPy, or None
+    (inner: callback_loop='inner' of kaczmarz / adupdates: one observation per operator)"""
     try:
+        if d['solver'] == 'adupdates':
+            return _np_adupdates(d, inner=inner)
         sv, N = d['solver'], d['niter']
         x = np.array(d['x0'], dtype=float)
         out = []
@@ -1256,7 +1261,10 @@ def _np_contract(d):
             for _ in range(N):
                 for (A, dadj), r, w in zip(ops, d['rhs'], d['omega']):
                     x = _np_project(d.get('proj'), x - w * dadj(x, A(x) - np.array(r, dtype=float)))
-                out.append(x.copy())
+                    if inner:
+                        out.append(x.copy())
+                if not inner:
+                    out.append(x.copy())
         elif sv == 'steepest_descent':
             for _ in range(N):
                 g = _need(_np_grad(d['f'], x))
@@ -1352,15 +1360,9 @@ def _same(a, b):
     return a == b or (a is None and b is None)
 
 
-def _contract(d):
-    """The contract of one solver on one problem:
-       (1) its callback-observed iterates are those of an independent NumPy transcription of the documented
-           iteration (operators / functionals may be NONLINEAR: derivatives and gradients capture the point);
-       (2) a call modifies nothing but x (and the state it documents: x_relax, y of pdhg; y of doubleprox_dc):
-           every other argument object -- rhs, data, lists such as sensitivities or omega, matrices -- compares
-           equal to a deep copy taken before the call;
-       (3) for the resumable solvers: n1 iterations, then N - n1 with THE SAME argument objects, for every n1
-           (the first call may have niter = 0), ends where one call with N ends."""
+def _build_call(d):
+    """(args, call, init, resumable): the argument objects of the problem d (created once) and
+    call(state, niter, callback=None, **extra_keywords)"""
     import odl
     from odl.solvers.nonsmooth.admm import admm_linearized
     from odl.solvers.nonsmooth.alternating_dual_updates import adupdates
@@ -1380,52 +1382,52 @@ def _contract(d):
         args = {'op': A, 'rhs': _el(A.range, d['rhs']), 'omega': d['omega']}
         pr = _projection(d.get('proj'))
         dom = A.domain
-        call = lambda st, it, cb=None: landweber(args['op'], st[0], args['rhs'], it, omega=args['omega'],
-                                                projection=pr, callback=cb)
+        call = lambda st, it, cb=None, **e: landweber(args['op'], st[0], args['rhs'], it, omega=args['omega'],
+                                                projection=pr, callback=cb, **e)
     elif sv == 'kaczmarz':
         ops = [_pop(o) for o in d['ops']]
         args = {'ops': ops, 'rhs': [_el(o.range, r) for o, r in zip(ops, d['rhs'])], 'omega': list(d['omega'])}
         pr = _projection(d.get('proj'))
         dom = ops[0].domain
-        call = lambda st, it, cb=None: kaczmarz(args['ops'], st[0], args['rhs'], it, omega=args['omega'],
-                                               projection=pr, callback=cb)
+        call = lambda st, it, cb=None, **e: kaczmarz(args['ops'], st[0], args['rhs'], it, omega=args['omega'],
+                                               projection=pr, callback=cb, **e)
     elif sv == 'steepest_descent':
         dom = odl.rn(len(d['x0']))
         args = {'f': _pf(d['f'], dom)}
         pr = _projection(d.get('proj'))
-        call = lambda st, it, cb=None: steepest_descent(args['f'], st[0], line_search=d['step'], maxiter=it,
-                                                       tol=d['tol'], projection=pr, callback=cb)
+        call = lambda st, it, cb=None, **e: steepest_descent(args['f'], st[0], line_search=d['step'], maxiter=it,
+                                                       tol=d['tol'], projection=pr, callback=cb, **e)
     elif sv in ('proximal_gradient', 'accelerated_proximal_gradient'):
         dom = odl.rn(len(d['x0']))
         args = {'f': _pf(d['f'], dom), 'g': _pf(d['g'], dom)}
         if sv == 'proximal_gradient':
-            call = lambda st, it, cb=None: proximal_gradient(st[0], args['f'], args['g'], d['gamma'], it, callback=cb,
-                                                            lam=d['lam'])
+            call = lambda st, it, cb=None, **e: proximal_gradient(st[0], args['f'], args['g'], d['gamma'], it, callback=cb,
+                                                            lam=d['lam'], **e)
         else:
             resumable = False
-            call = lambda st, it, cb=None: accelerated_proximal_gradient(st[0], args['f'], args['g'], d['gamma'], it,
-                                                                        callback=cb)
+            call = lambda st, it, cb=None, **e: accelerated_proximal_gradient(st[0], args['f'], args['g'], d['gamma'], it,
+                                                                        callback=cb, **e)
     elif sv in ('dca', 'prox_dca'):
         dom = odl.rn(len(d['x0']))
         args = {'f': _pf(d['f'], dom), 'g': _pf(d['g'], dom)}
         if sv == 'dca':
-            call = lambda st, it, cb=None: dca(st[0], args['f'], args['g'], it, callback=cb)
+            call = lambda st, it, cb=None, **e: dca(st[0], args['f'], args['g'], it, callback=cb, **e)
         else:
-            call = lambda st, it, cb=None: prox_dca(st[0], args['f'], args['g'], it, d['gamma'], callback=cb)
+            call = lambda st, it, cb=None, **e: prox_dca(st[0], args['f'], args['g'], it, d['gamma'], callback=cb, **e)
     elif sv == 'doubleprox_dc':
         K = _pop(d['op'])
         dom = K.domain
         args = {'K': K, 'f': _pf(d['f'], dom), 'g': _pf(d['g'], K.range), 'phi': _pf(d['phi'], dom)}
         nstate = 2
-        call = lambda st, it, cb=None: doubleprox_dc(st[0], st[1], args['f'], args['phi'], args['g'], args['K'], it,
-                                                    d['gamma'], d['mu'], callback=cb)
+        call = lambda st, it, cb=None, **e: doubleprox_dc(st[0], st[1], args['f'], args['phi'], args['g'], args['K'], it,
+                                                    d['gamma'], d['mu'], callback=cb, **e)
     elif sv == 'pdhg':
         L = _pop(d['op'])
         dom = L.domain
         args = {'L': L, 'f': _pf(d['f'], dom), 'g': _pf(d['g'], L.range)}
         nstate = 3
-        call = lambda st, it, cb=None: pdhg(st[0], args['f'], args['g'], args['L'], it, d['tau'], d['sigma'],
-                                           theta=d['theta'], x_relax=st[1], y=st[2], callback=cb)
+        call = lambda st, it, cb=None, **e: pdhg(st[0], args['f'], args['g'], args['L'], it, d['tau'], d['sigma'],
+                                           theta=d['theta'], x_relax=st[1], y=st[2], callback=cb, **e)
     elif sv in ('mlem', 'osmlem'):
         ops = [_pop(o) for o in d['ops']]
         dom = ops[0].domain
@@ -1436,41 +1438,41 @@ def _contract(d):
             args['sens'] = sens if isinstance(sens, (int, float)) else [dom.element(s_) for s_ in sens]
             kw = {'sensitivities': None}
         if sv == 'mlem':
-            def call(st, it, cb=None):
+            def call(st, it, cb=None, **e):
                 sv_ = args.get('sens')
                 if isinstance(sv_, list) and d.get('sens_as') == 'element':
                     sv_ = sv_[0]
                 elif isinstance(sv_, list) and d.get('sens_as') == 'ndarray':
                     sv_ = np.asarray(sv_[0])
                 k2 = {'sensitivities': sv_} if kw else {}
-                mlem(args['ops'][0], st[0], args['data'][0], it, callback=cb, **k2)
+                mlem(args['ops'][0], st[0], args['data'][0], it, callback=cb, **dict(k2, **e))
         else:
-            def call(st, it, cb=None):
+            def call(st, it, cb=None, **e):
                 k2 = {'sensitivities': args['sens']} if kw else {}
-                osmlem(args['ops'], st[0], args['data'], it, callback=cb, **k2)
+                osmlem(args['ops'], st[0], args['data'], it, callback=cb, **dict(k2, **e))
     elif sv == 'admm_linearized':
         L = _pop(d['op'])
         dom = L.domain
         args = {'L': L, 'f': _pf(d['f'], dom), 'g': _pf(d['g'], L.range)}
         resumable = False
-        call = lambda st, it, cb=None: admm_linearized(st[0], args['f'], args['g'], args['L'], d['tau'], d['sigma'], it,
-                                                      callback=cb)
+        call = lambda st, it, cb=None, **e: admm_linearized(st[0], args['f'], args['g'], args['L'], d['tau'], d['sigma'], it,
+                                                      callback=cb, **e)
     elif sv == 'adupdates':
         Ls = [_pop(o) for o in d['ops']]
         dom = Ls[0].domain
         args = {'L': Ls, 'g': [_pf(s_, Li.range) for s_, Li in zip(d['gs'], Ls)],
                 'inner': [_inner_step(v, Li.range) for v, Li in zip(d['inner'], Ls)]}
         resumable = False
-        call = lambda st, it, cb=None: adupdates(st[0], args['g'], args['L'], d['stepsize'], args['inner'], it,
-                                                callback=cb)
+        call = lambda st, it, cb=None, **e: adupdates(st[0], args['g'], args['L'], d['stepsize'], args['inner'], it,
+                                                callback=cb, **e)
     elif sv == 'douglas_rachford_pd':
         Ls = [_pop(o) for o in d['ops']]
         dom = Ls[0].domain
         args = {'L': Ls, 'f': _pf(d['f'], dom), 'g': [_pf(s_, Li.range) for s_, Li in zip(d['gs'], Ls)],
                 'sigma': list(d['sigma'])}
         resumable = False
-        call = lambda st, it, cb=None: douglas_rachford_pd(st[0], args['f'], args['g'], args['L'], it, tau=d['tau'],
-                                                          sigma=args['sigma'], callback=cb)
+        call = lambda st, it, cb=None, **e: douglas_rachford_pd(st[0], args['f'], args['g'], args['L'], it, tau=d['tau'],
+                                                          sigma=args['sigma'], callback=cb, **e)
     else:
         raise ValueError(sv)
 
@@ -1481,6 +1483,20 @@ def _contract(d):
         if nstate == 2:
             return [x, _el(args['K'].range, d['y0'])]
         return [x, x.copy(), args['L'].range.zero()]
+    return args, call, init, resumable
+
+
+def _contract(d):
+    """The contract of one solver on one problem:
+       (1) its callback-observed iterates are those of an independent NumPy transcription of the documented
+           iteration (operators / functionals may be NONLINEAR: derivatives and gradients capture the point);
+       (2) a call modifies nothing but x (and the state it documents: x_relax, y of pdhg; y of doubleprox_dc):
+           every other argument object -- rhs, data, lists such as sensitivities or omega, matrices -- compares
+           equal to a deep copy taken before the call;
+       (3) for the resumable solvers: n1 iterations, then N - n1 with THE SAME argument objects, for every n1
+           (the first call may have niter = 0), ends where one call with N ends."""
+    sv, N = d['solver'], d['niter']
+    args, call, init, resumable = _build_call(d)
 
     before = _snap(args)
     st = init()
@@ -1781,7 +1797,11 @@ def _alias_pool_eval(d):
 def _alias_pool_probes(niter=2):
     """every aliased proximal call site found in the regenerated programs x every pool member x every space kind"""
     sites = []
-    for sv, sym, _buf in TS.alias_sites():
+    try:
+        found = TS.alias_sites()
+    except Exception:            # the translator failed closed: use the pinned list of call sites
+        found = [(a, b, None) for a, b in ALIAS_SLOTS]
+    for sv, sym, _buf in found:
         if (sv, sym) in ALIAS_SLOTS and (sv, sym) not in sites:
             sites.append((sv, sym))
     out = []
@@ -1796,12 +1816,150 @@ def _alias_pool_probes(niter=2):
 
 
 def extra_coverage():
-    sites = TS.alias_sites()
+    try:
+        sites = TS.alias_sites()
+    except Exception as e:
+        sites = [(a, b, 'translator failed: %s' % str(e)[:80]) for a, b in ALIAS_SLOTS]
+    try:
+        sigs = dict((k, list(v)) for k, v in _signatures_now().items())
+    except Exception as e:
+        sigs = {'error': str(e)[:200]}
     return {'aliased_proximal_call_sites': ['%s : %s (out = %s)' % s_ for s_ in sites],
             'unmapped_aliased_call_sites': ['%s : %s' % (a, b) for a, b, _ in sites
                                             if (a, b) not in ALIAS_SLOTS and not a.startswith('douglas_rachford_pd_')
                                             and a != 'douglas_rachford_pd_noops'],
-            'pool_members_exercised_per_site': {k: sorted(v) for k, v in sorted(_ALIAS_COV.items())}}
+            'pool_members_exercised_per_site': {k: sorted(v) for k, v in sorted(_ALIAS_COV.items())},
+            'solver_signatures': sigs,
+            'solver_signatures_changed': sorted(k for k in SIGNATURES if sigs.get(k) != list(SIGNATURES[k]))}
+
+
+# ------------------------------------------------------- callback protocol and signatures
+SIGNATURES = {
+    'admm_linearized': ('x', 'f', 'g', 'L', 'tau', 'sigma', 'niter', '**kwargs'),
+    'admm_linearized_simple': ('x', 'f', 'g', 'L', 'tau', 'sigma', 'niter', '**kwargs'),
+    'adupdates': ('x', 'g', 'L', 'stepsize', 'inner_stepsizes', 'niter', 'random=False', 'callback=None',
+                  "callback_loop='outer'"),
+    'adupdates_simple': ('x', 'g', 'L', 'stepsize', 'inner_stepsizes', 'niter', 'random=False'),
+    'doubleprox_dc': ('x', 'y', 'f', 'phi', 'g', 'K', 'niter', 'gamma', 'mu', 'callback=None'),
+    'doubleprox_dc_simple': ('x', 'y', 'f', 'phi', 'g', 'K', 'niter', 'gamma', 'mu'),
+    'dca': ('x', 'f', 'g', 'niter', 'callback=None'),
+    'prox_dca': ('x', 'f', 'g', 'niter', 'gamma', 'callback=None'),
+    'pdhg': ('x', 'f', 'g', 'L', 'niter', 'tau=None', 'sigma=None', '**kwargs'),
+    'proximal_gradient': ('x', 'f', 'g', 'gamma', 'niter', 'callback=None', '**kwargs'),
+    'accelerated_proximal_gradient': ('x', 'f', 'g', 'gamma', 'niter', 'callback=None', '**kwargs'),
+    'douglas_rachford_pd': ('x', 'f', 'g', 'L', 'niter', 'tau=None', 'sigma=None', 'callback=None', '**kwargs'),
+    'landweber': ('op', 'x', 'rhs', 'niter', 'omega=None', 'projection=None', 'callback=None'),
+    'kaczmarz': ('ops', 'x', 'rhs', 'niter', 'omega=1', 'projection=None', 'random=False', 'callback=None',
+                 "callback_loop='outer'"),
+    'mlem': ('op', 'x', 'data', 'niter', 'callback=None', '**kwargs'),
+    'osmlem': ('op', 'x', 'data', 'niter', 'callback=None', '**kwargs'),
+    'steepest_descent': ('f', 'x', 'line_search=1.0', 'maxiter=1000', 'tol=1e-16', 'projection=None', 'callback=None'),
+}
+HAS_CALLBACK_LOOP = ('kaczmarz', 'adupdates')
+STRICT_KEYWORDS = ('dca', 'prox_dca', 'doubleprox_dc', 'landweber', 'steepest_descent', 'kaczmarz', 'adupdates',
+                   'douglas_rachford_pd')      # no **kwargs (or leftovers rejected): an unknown keyword raises TypeError
+
+
+def _solver_functions():
+    from odl.solvers.nonsmooth.admm import admm_linearized, admm_linearized_simple
+    from odl.solvers.nonsmooth.alternating_dual_updates import adupdates, adupdates_simple
+    from odl.solvers.nonsmooth.difference_convex import doubleprox_dc, doubleprox_dc_simple, dca, prox_dca
+    from odl.solvers.nonsmooth.primal_dual_hybrid_gradient import pdhg
+    from odl.solvers.nonsmooth.proximal_gradient_solvers import proximal_gradient, accelerated_proximal_gradient
+    from odl.solvers.nonsmooth.douglas_rachford import douglas_rachford_pd
+    from odl.solvers.iterative.iterative import landweber, kaczmarz
+    from odl.solvers.iterative.statistical import mlem, osmlem
+    from odl.solvers.smooth.gradient import steepest_descent
+    return dict((f.__name__, f) for f in (
+        admm_linearized, admm_linearized_simple, adupdates, adupdates_simple, doubleprox_dc, doubleprox_dc_simple, dca,
+        prox_dca, pdhg, proximal_gradient, accelerated_proximal_gradient, douglas_rachford_pd, landweber, kaczmarz, mlem,
+        osmlem, steepest_descent))
+
+
+def _signatures_now():
+    import inspect
+    return dict((n, tuple(str(p_) for p_ in inspect.signature(f).parameters.values()))
+                for n, f in _solver_functions().items())
+
+
+def _callback_eval(d):
+    """The callback protocol of one solver on one problem (mode d['mode']):
+       sequence   the sequence of callback invocations (count and iterate values) is the NumPy transcription's list
+                  of iterates (callback_loop 'outer' / 'inner' where the option exists; count and last value where no
+                  transcription exists)
+       none       callback=None leaves the same final iterate
+       composite  a composite callback (CallbackStore & CallbackStore) sees the same sequence in both parts
+       bad-value  an unknown callback_loop value raises ValueError
+       no-option  a solver without the option rejects callback_loop= with TypeError
+       signature  the keyword set of the solver is the pinned one"""
+    import odl
+    C.setup_impl_path()
+    mode, sv = d['mode'], d['solver']
+    if mode == 'signature':
+        now = _signatures_now().get(sv)
+        return now == SIGNATURES[sv], {'signature': now}, {'pinned': SIGNATURES[sv]}
+    N = d['niter']
+    args, call, init, _ = _build_call(d)
+    loop = d.get('loop')
+    extra = {'callback_loop': loop} if loop else {}
+    if mode in ('bad-value', 'no-option'):
+        want = ValueError if mode == 'bad-value' else TypeError
+        try:
+            call(init(), N, lambda v: None, callback_loop=('sideways' if mode == 'bad-value' else 'inner'))
+        except want:
+            return True, want.__name__, want.__name__
+        except Exception as e:
+            return False, type(e).__name__, want.__name__
+        return False, 'no exception', want.__name__
+    st = init()
+    tr = []
+    call(st, N, lambda v: tr.append(_flat(v)), **extra)
+    final = _flat(st[0])
+    sc = _scale(tr, final)
+    if mode == 'sequence':
+        ref = _np_contract(d, inner=(loop == 'inner'))
+        if ref is not None:
+            ok = len(tr) == len(ref) and _close(tr, ref, sc)
+            return ok, {'callbacks': np.array(tr).tolist()}, {'numpy': np.array(ref).tolist()}
+        nops = len(d['ops']) if 'ops' in d else 1
+        count = N * (nops if (loop == 'inner' or sv == 'osmlem') else 1)
+        ok = len(tr) == count and (not tr or _close(tr[-1], final, sc))
+        return ok, {'count': len(tr), 'last': tr[-1].tolist() if tr else None}, {'count': count, 'final': final.tolist()}
+    if mode == 'none':
+        st2 = init()
+        call(st2, N, None, **extra)
+        ok = _close(_flat(st2[0]), final, sc)
+        return ok, _flat(st2[0]).tolist(), final.tolist()
+    if mode == 'composite':
+        s1, s2 = odl.solvers.CallbackStore(), odl.solvers.CallbackStore()
+        st3 = init()
+        call(st3, N, s1 & s2, **extra)
+        t1 = [_flat(v) for v in s1.results]
+        t2 = [_flat(v) for v in s2.results]
+        ok = len(t1) == len(tr) and len(t2) == len(tr) and _close(t1, tr, sc) and _close(t2, tr, sc)
+        return ok, {'part1': len(t1), 'part2': len(t2)}, {'plain': len(tr)}
+    raise ValueError(mode)
+
+
+def _callback_probes(rng, count):
+    out = []
+    for sv in sorted(SIGNATURES):
+        out.append(({'kind': 'callback', 'mode': 'signature', 'solver': sv, 'niter': 0}, 'signature-%s' % sv))
+    for d0, key in _contract_probes(rng, count):
+        sv = d0['solver']
+        if d0.get('sens_as') or 'sens' in d0 and sv == 'mlem':
+            continue
+        base = dict(d0, kind='callback')
+        loops = ['outer', 'inner'] if sv in HAS_CALLBACK_LOOP else [None]
+        for loop in loops:
+            tag = '%s%s' % (sv, ('-callback_loop=' + loop) if loop else '')
+            for mode in ('sequence', 'none', 'composite'):
+                out.append((dict(base, mode=mode, loop=loop), 'callback-%s-%s' % (mode, tag)))
+        if sv in HAS_CALLBACK_LOOP:
+            out.append((dict(base, mode='bad-value'), 'callback-bad-value-%s' % sv))
+        elif sv in STRICT_KEYWORDS:
+            out.append((dict(base, mode='no-option'), 'callback-no-option-%s' % sv))
+    return out
 
 
 def _inner_step(v, ran):
@@ -1840,7 +1998,7 @@ def _np_ccprox(spec, step, a):
     return None
 
 
-def _np_adupdates(d):
+def _np_adupdates(d, inner=False):
     """iterates of the alternating dual updates (fixed order) in plain NumPy, or None"""
     if any(o[0] != 'rn' for o in d['ops']):
         return None
@@ -1859,7 +2017,10 @@ def _np_adupdates(d):
                 return None
             x = x - (1.0 / s) * (M.T @ (t - duals[j]))
             duals[j] = t
-        out.append(x.copy())
+            if inner:
+                out.append(x.copy())
+        if not inner:
+            out.append(x.copy())
     return out
 
 
@@ -2000,15 +2161,31 @@ def probes(rng, tier):
             ok, det = False, {'raised': '%s: %s' % (type(e).__name__, str(e)[:300])}
         out.append(C.Probe(bool(ok), key, what, _replay(d), det))
 
+    def family(name, gen, what):
+        """run one generated probe family; a generator that raises (translator failed closed, changed signature,
+        ...) becomes ONE failing probe instead of crashing the harness"""
+        try:
+            items = list(gen())
+        except Exception as e:
+            out.append(C.Probe(False, 'probe-family-%s-could-not-be-generated' % name, what, None,
+                               {'raised': '%s: %s' % (type(e).__name__, str(e)[:300])}))
+            return
+        for d, key in items:
+            add(d, key, what)
+
     # every aliased proximal call site x the whole functional pool (all space kinds)
     _ALIAS_COV.clear()
-    for d, key in _alias_pool_probes(2 if tier == 'quick' else 3)[0]:
-        add(d, key, 'solver with this functional in the aliased-proximal slot = the same run with proximals working on '
-                    'copies (= the shipped reference where there is one)')
+    family('alias-pool', lambda: _alias_pool_probes(2 if tier == 'quick' else 3)[0],
+           'solver with this functional in the aliased-proximal slot = the same run with proximals working on copies '
+           '(= the shipped reference where there is one)')
+    # callback protocol: sequence of invocations, callback=None, composite callbacks, option values, signatures
+    family('callback', lambda: _callback_probes(rng, 15 * reps),
+           'callback protocol: the sequence of callback invocations is the documented one (NumPy transcription), '
+           'callback=None / composite callbacks agree, unknown option values raise, keyword sets are the pinned ones')
     # contract family: NumPy transcription incl. nonlinear operators, unchanged inputs, same objects on continuation
-    for d, key in _contract_probes(rng, 45 * reps):
-        add(d, key, 'iterates = NumPy transcription of the documented iteration; no argument but x is modified; '
-                    'n then m iterations with the same argument objects = n+m')
+    family('contract', lambda: _contract_probes(rng, 45 * reps),
+           'iterates = NumPy transcription of the documented iteration; no argument but x is modified; '
+           'n then m iterations with the same argument objects = n+m')
     for _ in range(25 * reps):
         op, n, m, ps = _rand_op(rng, tier)
         f, g = _rand_spec(rng, n, 'prox'), _rand_spec(rng, m, 'prox', ps)
@@ -2170,19 +2347,22 @@ def search(rng, broken):
     it names.  Returns the first failing probe (a concrete replay) or None."""
     known = C.load_findings(PID)
     kinds = []
-    # whatever broke: every aliased proximal call site x the functional pool
-    try:
-        for dd, key in _alias_pool_probes(3)[0]:
-            p = _try(dd, key, 'aliased proximal call site x functional pool')
+    # whatever broke (also a translator that failed closed): the three generated families at the thorough volume;
+    # an exception inside one probe is that probe failing (see _try), a crashing generator is skipped
+    fams = [('aliased proximal call site x functional pool', lambda: _alias_pool_probes(3)[0]),
+            ('callback protocol: sequence of invocations, None / composite callbacks, option values, signatures',
+             lambda: _callback_probes(rng, 15 * 6)),
+            ('contract of the solver: NumPy transcription, unchanged inputs, continuation with the same objects',
+             lambda: _contract_probes(rng, 45 * 6))]
+    for what_, gen in fams:
+        try:
+            items = list(gen())
+        except Exception:
+            continue
+        for dd, key in items:
+            p = _try(dd, key, what_)
             if not p.ok and p.key not in known:
                 return p
-    except C.TranslateError:
-        pass
-    # whatever broke (also a translator that failed closed): the contract family at the thorough volume
-    for dd, key in _contract_probes(rng, 45 * 6):
-        p = _try(dd, key, 'contract of the solver: NumPy transcription, unchanged inputs, continuation with the same objects')
-        if not p.ok and p.key not in known:
-            return p
     for kind, what, detail in broken:
         if kind == 'correspondence' and isinstance(detail, dict) and isinstance(detail.get('probe'), dict):
             d = detail['probe']
@@ -2212,7 +2392,10 @@ def search(rng, broken):
             if not p.ok and p.key not in known:
                 return p
     # all probes of the thorough tier (those of the named clauses first)
-    allp = probes(rng, 'thorough')
+    try:
+        allp = probes(rng, 'thorough')
+    except Exception:
+        return None
     for p in sorted(allp, key=lambda q: not any(q.key.startswith(k) for k in kinds)):
         if not p.ok and p.key not in known:
             return p
